@@ -243,7 +243,7 @@ def covered_object(a, msg):
         return None
     w, kind = mm.group(1), mm.group(2)
     fake = {"ns_map": a["ns_map"], "events": [], "cfg": {}}
-    for fid in ("c03-reserved-prefix",):
+    for fid in ("c03-prefix-unicode-ncname",):
         pred, where = O.KNOWN[fid]
         if kind in where.get(w, ()) and pred(fake):
             return fid
